@@ -51,7 +51,7 @@ func govState() (*env.Env, types.AllianceAsset) {
 	_ = e.K.SetParams(e.Ctx, types.Params{RewardDelayTime: time.Hour, TakeRateClaimInterval: 5 * time.Minute, LastTakeRateClaimTime: t0})
 	a := types.AllianceAsset{Denom: Denoms[0], RewardWeight: nd.DecRange("w", "0", "10"),
 		RewardWeightRange: types.RewardWeightRange{Min: math.LegacyZeroDec(), Max: math.LegacyNewDec(10)},
-		TakeRate: nd.DecRange("rate", "0", "0.999999999999999999"), TotalTokens: nd.IntRange("T", "0", Pow30),
+		TakeRate:          nd.DecRange("rate", "0", "0.999999999999999999"), TotalTokens: nd.IntRange("T", "0", Pow30),
 		TotalValidatorShares: nd.DecRange("tvs", "0", Pow30), RewardStartTime: nd.TimeRange("start", TLo, THi),
 		RewardChangeRate: math.LegacyOneDec(), RewardChangeInterval: 0, IsInitialized: nd.Choice("init", 2) == 1}
 	a.LastRewardChangeTime = a.RewardStartTime
